@@ -159,3 +159,62 @@ def choice_twin(n: int, k0: int, k1: int, k2: int, k3: int) -> bool:
     had_vd = any(e.tag == CLARK[2] for e in kids)
     p.get_or_change_to_ve()
     return not (had_vd and n == 4)
+
+
+# ------------------------------------------------------------------ nested content is not a sibling
+def _build_nested(n, ks, gs):
+    p = parse_xml("<a:vtoy %s/>" % nsdecls("a"))
+    kids, grand = [], []
+    for k, g in list(zip(ks, gs))[:n]:
+        e = OxmlElement(TAGS[k])
+        p.append(e)
+        kids.append(e)
+        if g >= 0:
+            ge = OxmlElement(TAGS[g])
+            e.append(ge)
+            grand.append((e, ge))
+    return p, kids, grand
+
+
+@cond(timeout=600, encodes=ENC,
+      bound="child sequences of length <= 3 over a 4-tag alphabet, each child optionally holding one nested element of any of the 4 tags "
+            "(PowerPoint-authored subtrees such as p:nvPr/p:extLst or c:dLbl/c:txPr); successor tuple: 2 slots, each absent or one of the 4 "
+            "tags; operation: insert_element_before / remove_all of the successor tags / ZeroOrOne getter + get_or_add (choice variable): "
+            "only children count, nested elements stay where they are")
+def nested_elements_are_not_siblings(n: int, k0: int, k1: int, k2: int, g0: int, g1: int, g2: int, s0: int, s1: int, op: int) -> bool:
+    """
+    pre: 0 <= n <= 3 and 0 <= k0 < 4 and 0 <= k1 < 4 and 0 <= k2 < 4
+    pre: -1 <= g0 < 4 and -1 <= g1 < 4 and -1 <= g2 < 4 and -1 <= s0 < 4 and -1 <= s1 < 4 and 0 <= op < 3
+    post: _
+    """
+    p, kids, grand = _build_nested(n, [k0, k1, k2], [g0, g1, g2])
+    succ = [TAGS[s] for s in (s0, s1) if s >= 0]
+    sc = [qn(t) for t in succ]
+    if op == 0:
+        e = OxmlElement(TAGS[0])
+        p.insert_element_before(e, *succ)
+        ok = _same(p, _model_insert(kids, e, sc))
+    elif op == 1:
+        p.remove_all(*succ)
+        ok = _same(p, [e for e in kids if e.tag not in sc])
+    else:
+        existing = [e for e in kids if e.tag == CLARK[0]]
+        got = p.get_or_add_vb()
+        if existing:
+            ok = got is existing[0] and _same(p, kids)
+        else:
+            ok = got.tag == CLARK[0] and _same(p, _model_insert(kids, got, CLARK[1:]))
+    return ok and all(len(e) == 1 and e[0] is ge for e, ge in grand) and all(len(e) == 0 for e in kids if all(e is not x for x, _ in grand))
+
+
+@cond(expect="refute", timeout=120, twin_of="nested_elements_are_not_siblings")
+def nested_elements_twin(n: int, k0: int, k1: int, g0: int, s0: int) -> bool:
+    """
+    pre: 0 <= n <= 3 and 0 <= k0 < 4 and 0 <= k1 < 4 and -1 <= g0 < 4 and -1 <= s0 < 4
+    post: _
+    """
+    p, kids, grand = _build_nested(n, [k0, k1, 0], [g0, -1, -1])
+    e = OxmlElement(TAGS[0])
+    p.insert_element_before(e, *[TAGS[s] for s in (s0,) if s >= 0])
+    # reach: the only element carrying the successor tag is nested inside the first child
+    return not (n == 2 and g0 == 2 and s0 == 2 and k0 != 2 and k1 != 2 and list(p).index(e) == 2)
